@@ -52,7 +52,7 @@ def usable(name):
 
 
 # ------------------------------------------------------------------------------------ context kwds
-USERS = ["u", "Admin", "sc", "usr", "user", "longer.user@example.org", "üser", "MÜLLER", "Åsa", "Юзер", "Łukasz", "十Z", "SCOTT", "a b"]
+USERS = ["u", "Admin", "sc", "usr", "user", "longer.user@example.org", "üser", "MÜLLER", "Åsa", "Юзер", "Łukasz", "十Z", "SCOTT", "a b", "Groß", "STRAẞE", "Meißner", "İstanbul", "ǅemal"]
 REALMS = ["r", "realm with blank", "réalm"]
 
 
